@@ -287,8 +287,28 @@ Definition decode_op (l : list Z) : op :=
   | _ => Tick 0
   end.
 
+(* UpsertServer while the meter factory (RebalancerMeter option) fails: for a server the rebalancer already knows no
+   meter is made and the call is an ordinary upsert; for a new one the inner balancer's upsert is rolled back
+   (rb.next.RemoveServer) and the error returned, so nothing has changed. An inner error comes first. *)
+Definition upsert_meter_fails (s : st) (k : Z) (w : option Z) : option st :=
+  match find_srv (shadow s) k with
+  | Some _ => upsert s k w
+  | None => None
+  end.
+
+(* [4; k; has; w]: such an upsert; everything else as decode_op says *)
+Definition xstep (backoff : Z) (s : st) (l : list Z) : st * list Z :=
+  match l with
+  | [4; k; has; w] =>
+      match upsert_meter_fails s k (if has =? 0 then None else Some w) with
+      | Some s' => (s', obs 0 s')
+      | None => (s, obs 1 s)
+      end
+  | _ => step backoff s (decode_op l)
+  end.
+
 (* cfg = [backoff in ns]; RebalancerBackoff(0) means the default *)
 Definition backoff_of (cfg : list Z) : Z := if zhd cfg =? 0 then defaultBackoff else zhd cfg.
 
 Definition run (cfg : list Z) (ops : list (list Z)) : list (list Z) :=
-  run_from (step (backoff_of cfg)) init (map decode_op ops).
+  run_from (xstep (backoff_of cfg)) init ops.
